@@ -2,9 +2,12 @@
 //
 // Engine: vsched. 2-3 scheduler threads ("sessions", each with its own SessionExecutor) plan
 // 1-2 statements each against ONE shared server.Namespace / router.Router built by the real
-// NewNamespace. Only proxy/router/router.go and rule.go are rewritten: every read / write of
-// a field of Router, BaseRule or LinkedRule is an access point (scheduling point + input of
-// the happens-before race detector). Parser and planner run un-instrumented between points.
+// NewNamespace (tables of the rule types mod, hash, range, date_month, mycat_murmur,
+// mycat_long, mycat_string). Rewritten: proxy/router/router.go, rule.go, shard_mycat.go and
+// util/murmur.go - every read / write of a field of Router, BaseRule, LinkedRule, of the mycat
+// shard structs and of util.MurmurHash is an access point (scheduling point + input of the
+// happens-before race detector). shard.go cannot be rewritten by mkoverlay at present (see
+// NOTES.md). Parser and planner run un-instrumented between points.
 //
 // Operations (all through the real code paths):
 //
@@ -21,8 +24,9 @@
 //	    list: slice used, database selected, table asked) equals what the same statement
 //	    yields when it is planned alone on a fresh namespace; for `lookup`: the rule returned
 //	    for (db, table) reports db;
-//	(b) no happens-before race on router / rule state; the routing configuration (all rules)
-//	    is unchanged after the run.
+//	(b) no happens-before race on router / rule / shard state; a reflective deep dump of
+//	    everything reachable from the Router (rules, slice and map CONTENTS, shard objects,
+//	    hash function, bucket tree) is the same before and after the run.
 package main
 
 import (
@@ -34,6 +38,7 @@ import (
 	"go/token"
 	"os"
 	"path/filepath"
+	"runtime/debug"
 	"sort"
 	"strings"
 	"time"
@@ -344,13 +349,33 @@ func raceNorm(x *vsched.Exec) (norm, detail string) {
 	return strings.Join(ks, "+"), fmt.Sprintf("%s: %s / %s", ra.Label, ra.A, ra.B)
 }
 
-// firstDiff names the first rule line that differs between two router dumps.
+// firstDiff names the first rule line that differs between two router dumps and shows the
+// neighbourhood of the first differing byte.
 func firstDiff(before, after string) string {
 	b, a := strings.Split(before, "\n"), strings.Split(after, "\n")
 	for i := 0; i < len(b) && i < len(a); i++ {
-		if b[i] != a[i] {
-			return fmt.Sprintf("was {%s} is {%s}", b[i], a[i])
+		if b[i] == a[i] {
+			continue
 		}
+		name := b[i]
+		if k := strings.Index(name, " = "); k > 0 {
+			name = name[:k]
+		}
+		j := 0
+		for j < len(b[i]) && j < len(a[i]) && b[i][j] == a[i][j] {
+			j++
+		}
+		cut := func(s string) string {
+			lo, hi := j-70, j+50
+			if lo < 0 {
+				lo = 0
+			}
+			if hi > len(s) {
+				hi = len(s)
+			}
+			return s[lo:hi]
+		}
+		return fmt.Sprintf("rule %s: was {...%s...} is {...%s...}", name, cut(b[i]), cut(a[i]))
 	}
 	return fmt.Sprintf("%d rule lines before, %d after", len(b), len(a))
 }
@@ -394,7 +419,12 @@ func classify(sc scenario) func(x *vsched.Exec) (string, string, string, string)
 		}
 		// (b) configuration untouched, no race
 		if state != ww.state0 {
-			return "invariant", "routing configuration changed by planning: " + firstDiff(ww.state0, state), "router-config-changed", outcome
+			d := "routing configuration changed by planning: " + firstDiff(ww.state0, state)
+			if len(x.Races) > 0 {
+				n, _ := raceNorm(x)
+				d += " [races in this run: " + n + "]"
+			}
+			return "invariant", d, "router-config-changed", outcome
 		}
 		if len(x.Races) > 0 {
 			n, d := raceNorm(x)
@@ -510,14 +540,16 @@ func scenarios(r *ev.Run) []scenario {
 		// sharding-key conditions on every rule type (shard objects, murmur hash function); first: they are the longest
 		{Name: "murmur-2keys", Threads: [][]string{{"mm1"}, {"mm2"}}},
 		{Name: "murmur-repeat", Threads: [][]string{{"mm1", "mm3"}, {"mm2"}}},
-		{Name: "mycat-long-string", Threads: [][]string{{"ml1", "ms1"}, {"ms2"}}},
+		{Name: "mycat-string-2keys", Threads: [][]string{{"ms1"}, {"ms2"}}},
 		{Name: "mycat-long-2keys", Threads: [][]string{{"ml1"}, {"ml2"}}},
-		{Name: "hash-datemonth", Threads: [][]string{{"h3", "dm1"}, {"dm2"}}},
-		{Name: "range-notbetween", Threads: [][]string{{"rnb", "ra"}, {"r1"}}},
-		{Name: "range-notbetween-conc", Threads: [][]string{{"rnb"}, {"ra"}}},
-		{Name: "range-between-in", Threads: [][]string{{"rb", "rin"}, {"r1"}}},
-		{Name: "range-delete", Threads: [][]string{{"rd"}, {"rin"}}},
-		{Name: "range-insert", Threads: [][]string{{"ir", "ra"}, {"r1"}}},
+		{Name: "datemonth-2keys", Threads: [][]string{{"dm1"}, {"dm2"}}},
+		{Name: "hash-2keys", Threads: [][]string{{"h3"}, {"sh"}}},
+		{Name: "range-notbetween", Threads: [][]string{{"rnb", "ra"}, {"u1"}}},
+		{Name: "range-notbetween-conc", Threads: [][]string{{"rnb"}, {"r1"}}},
+		{Name: "range-between-in", Threads: [][]string{{"rb"}, {"rin"}}},
+		{Name: "range-delete", Threads: [][]string{{"rd"}, {"r1"}}},
+		{Name: "range-insert", Threads: [][]string{{"ir", "ra"}, {"u1"}}},
+		{Name: "range-insert-conc", Threads: [][]string{{"ir"}, {"r1"}}},
 		{Name: "3sessions-murmur", Threads: [][]string{{"mm1"}, {"mm2"}, {"mm3"}}},
 		{Name: "3sessions-ruletypes", Threads: [][]string{{"ml1", "r1"}, {"ms2"}, {"dm1", "mm2"}}},
 		{Name: "unshard-db1-db2", Threads: [][]string{{"u1"}, {"u2"}}},
@@ -544,6 +576,8 @@ func scenarios(r *ev.Run) []scenario {
 
 func main() {
 	gx.Quiet()
+	// executions allocate a fresh namespace each; the live heap is tiny, so collect rarely
+	debug.SetGCPercent(1000)
 	r := ev.Start("C07", "model_checking")
 	if os.Getenv("VX_CHILD") == "" {
 		checkAccessList()
